@@ -272,6 +272,12 @@ func (rt roundTripper) RoundTrip(req *http.Request) (*http.Response, error) {
 	r2 := req.Clone(req.Context())
 	r2.Body = io.NopCloser(bytes.NewReader(body))
 	r2.ContentLength = int64(len(body))
+	if r2.Header.Get("X-Lab-Unknown-Length") != "" {
+		// a tap asks for this request to arrive the way a chunked transfer does: length not announced
+		r2.Header.Del("X-Lab-Unknown-Length")
+		req.Header.Del("X-Lab-Unknown-Length")
+		r2.ContentLength = -1
+	}
 	rec := httptest.NewRecorder()
 	rt.h.ServeHTTP(rec, r2)
 	status := rec.Code
